@@ -1,19 +1,27 @@
 """C28 - Grid equivalents reproduce the internal operating point (DESIGN.md sec. 2, C28).
 
-A case is {"recipe": <netgen recipe>, "seed": int, "radius": 0..2, "variant": "inner"|"outer", "give": "one"|"all",
-           "close": bool, "eq_type": "ward"|"xward"|"rei", "kw": {get_equivalent keyword arguments}}.
+A case is {"recipe": <netgen recipe>, "mode": <feature family, see MODES>, "seed": int, "radius": 0..2,
+           "variant": "inner"|"outer", "give": "one"|"all", "close": bool, "prune": bool,
+           "eq_type": "ward"|"xward"|"rei", "kw": {get_equivalent keyword arguments}}.
 
-The region is resolved against the solved network inside `check`:
+The region is resolved against the solved network inside `check` (regions()):
   graph      = buses joined by in-service lines / impedances / transformers (no open switch at a side) and closed
-               bus-bus switches, restricted to supplied buses (own code, not pandapower.topology)
-  ball       = BFS ball of `radius` around the `seed`-th supplied bus (radius reduced until a boundary and an external
-               area exist)
+               bus-bus switches (own code, not pandapower.topology)
+  ball       = BFS ball of `radius` around the `seed`-th bus (radius reduced / other variant / next bus until a boundary
+               and an external area exist)
   "inner"    : boundary = buses of the ball with a neighbour outside, internal = rest of the ball
   "outer"    : boundary = neighbours of the ball outside, internal = the ball
-  "close"    : the boundary handed over is closed under closed bus-bus switches (what the docstring suggests); the
-               expected bus groups are computed with the closure in both cases (get_equivalent does the same)
+  "prune"    : boundary buses without a neighbour in the external area are left to the internal area (a frontier bus has
+               neighbours on both sides); False only in mode detached-boundary
+  "close"    : the boundary handed over is closed under closed bus-bus switches (what the log message of get_equivalent
+               suggests); the expected bus groups are computed with the closure in both cases (get_equivalent does the same)
   "give"     : all internal buses or only the seed are handed over ("Just one of them is enough"); expected internal
                area = components of graph - boundary that contain a given bus
+  external slack buses become boundary buses when neither the internal area nor the boundary holds a slack (as in
+  _determine_bus_groups).
+
+Failure signatures: raised/<eq>/<exception site>/<cause>, voltage-differs/<scope>/<fact>, eq-pf-failed/..., original-changed/<eq>,
+bus-missing-in-equivalent/<eq>, returned-None/<eq>; <fact> is the first root-cause fact of facts() or "other".
 """
 import math
 
@@ -27,7 +35,7 @@ LEVEL = "exploration"
 EXAMPLES = {"quick": 320, "thorough": 6000}
 NO_SHRINK = {"quick": True, "thorough": False}
 SHRINK_S = {"quick": 20, "thorough": 120}
-DEADLINE_S = {"quick": 600, "thorough": 3000}
+DEADLINE_S = {"quick": 1800, "thorough": 6000}
 TOL_VM = 1e-6
 TOL_VA = 1e-6
 RULE = ("Hypothesis draws a meshed netgen.grid network (1-3 voltage levels, 4-16 buses, lines with c/g/parallel/df, impedances, "
